@@ -402,7 +402,20 @@ func (s *Sim) exec(st stepRef) {
 			}
 			os.WriteFile(s.dirs.Pcap+name, content, 0o644)
 			op.K = "Import"
-			op.Convs = []string{name}
+			op.Convs = nil
+			good := func(files []int) {
+				for _, fi := range files {
+					if fi < len(s.capt.Names) {
+						n := s.capt.Names[fi]
+						if err := copyFile(s.scratch+"/src/"+n, s.dirs.Pcap+n, 0o644); err == nil {
+							op.Convs = append(op.Convs, n)
+						}
+					}
+				}
+			}
+			good(op.Files)
+			op.Convs = append(op.Convs, name)
+			good(op.After)
 			if op.V != 3 {
 				s.res.Count("fault_corrupt_capture", 1)
 			}
